@@ -5,6 +5,7 @@ import (
 	"fmt"
 	"os"
 	"path/filepath"
+	"runtime"
 	"strings"
 	"testing"
 
@@ -104,6 +105,76 @@ func c19Measure(key string, pre []c19Pre) (held, reset float64, err error) {
 	return
 }
 
+// c19SecondRender: "once a context, an output buffer and a template have been used ONCE" — the mallocs of the second
+// render alone (new context, one render, Reset + same variables, then the measured render), the minimum over a few
+// trials so that a stray allocation of the runtime is not charged.
+func c19SecondRender(key string, pre []c19Pre) (allocs uint64, err error) {
+	defer runtime.GOMAXPROCS(runtime.GOMAXPROCS(1))
+	allocs = ^uint64(0)
+	for trial := 0; trial < 5; trial++ {
+		ctx := dyntpl.NewCtx()
+		var buf bytes.Buffer
+		c19Apply(ctx, pre)
+		err = dyntpl.Write(&buf, key, ctx)
+		ctx.Reset()
+		c19Apply(ctx, pre)
+		buf.Reset()
+		var m0, m1 runtime.MemStats
+		runtime.ReadMemStats(&m0)
+		_ = dyntpl.Write(&buf, key, ctx)
+		runtime.ReadMemStats(&m1)
+		if d := m1.Mallocs - m0.Mallocs; d < allocs {
+			allocs = d
+		}
+	}
+	return
+}
+
+// c19NestedIncludes: chains of includes a → b → c (→ d), each level writing more than a small buffer holds, rendered
+// through an include and directly: the second render must not allocate (a nested include used to move the slice of
+// include writers under the including template, whose writer kept the capacity of the moment and grew again).
+func c19NestedIncludes(r *Run, pre []c19Pre) {
+	pad := strings.Repeat("0123456789", 9)
+	for depth := 2; depth <= 5; depth++ {
+		for _, inLoop := range []bool{false, true} {
+			dyntpl.VerifResetRegistry()
+			okc := true
+			for lv := depth; lv >= 1; lv-- {
+				src := fmt.Sprintf("L%d[%s{%%= user.Id %%}", lv, pad)
+				if lv < depth {
+					src += fmt.Sprintf("{%% include nest%d %%}", lv+1)
+				}
+				src += "]" + pad
+				tree, err, pan := parseSafe([]byte(src), true)
+				if err != nil || pan != "" {
+					okc = false
+					break
+				}
+				dyntpl.RegisterTplKey(fmt.Sprintf("nest%d", lv), tree)
+			}
+			main := `{% include nest1 %}`
+			if inLoop {
+				main = `{% for i := 0; i < 2; i++ %}{% include nest1 %}{% endfor %}`
+			}
+			tree, err, pan := parseSafe([]byte(main), true)
+			if !okc || err != nil || pan != "" {
+				r.Internal("C19 nested includes: sources do not parse")
+				return
+			}
+			dyntpl.RegisterTplKey("nestmain", tree)
+			allocs, rerr := c19SecondRender("nestmain", pre)
+			sig := fmt.Sprintf("second-render nested-includes depth=%d in-loop=%v", depth, inLoop)
+			r.Count(sig, true)
+			r.Dist[fmt.Sprintf("second-render nested includes allocs=%d", allocs)]++
+			if allocs != 0 || rerr != nil {
+				r.Violate(fmt.Sprintf("allocs second-render depth=%d in-loop=%v allocs=%d", depth, inLoop, allocs), fmt.Sprintf("the SECOND render of %d nested includes on a context used once allocates %d objects", depth, allocs),
+					map[string]any{"depth": depth, "in_loop": inLoop, "main": main, "allocs_second_render": allocs, "render_error": fmt.Sprint(rerr)})
+			}
+		}
+	}
+	dyntpl.VerifResetRegistry()
+}
+
 func init() {
 	props["C19"] = func(r *Run) {
 		r.Rule = "measurement (testing.AllocsPerRun after 3 warm-up renders, held context and output buffer): the repository's benchmark templates (testdata/tpl) with the test object, and generated compositions of prints, escape directives and " +
@@ -198,6 +269,7 @@ func init() {
 			// includes inside regions, regions inside includes
 			{MaxDepth: 3, MaxNodes: 14, Loops: true, Include: true, Region: true, Letters: true, PreSuf: true, Helpers: true, BuiltinOnly: true},
 		}
+		c19NestedIncludes(r, userPre)
 		for i := 0; i < r.N(600, 12000); i++ {
 			c, _ := genCase(r, cfgs[i%3])
 			dyntpl.VerifResetRegistry()
